@@ -511,6 +511,9 @@ def key_encrypt(supplied):
         r.hook('pgpy.pgp.PGPUID', 'selfsig', scn.const(E.VObj('pgpy.pgp.PGPSignature', 'selfsig')))
         r.hook('pgpy.pgp.PGPSignature', 'cipherprefs', scn.const(ex.new_list(st, [AES])))
         r.hook('pgpy.pgp.PGPSignature', 'compprefs', scn.const(ex.new_list(st, [])))
+        # what else the recipient's self-signature says is arbitrary - in particular whether it advertises modification detection (keys
+        # made by old tools do not): what is produced is an integrity-protected container all the same (C04: a plain tag 9 packet is malleable)
+        r.hook('pgpy.pgp.PGPSignature', 'features', scn.const(E.VSet([E.VInt(1, enum='pgpy.constants.Features')], [z3.Bool('recipient_advertises_modification_detection')])))
         msg = E.VObj(MSG, 'plain')
         r.hook(MSG, 'is_compressed', scn.const(E.VBool(False)))
         r.hook(MSG, 'is_encrypted', lambda ex, st, o, a: [(st, E.VBool(False))])
@@ -536,6 +539,15 @@ def key_encrypt(supplied):
             return [(st, E.VNone())]
         r.hook(SE, 'encrypt', scn.method_hook(senc))
 
+        # any OTHER container class that might be chosen (a tag 9 packet has no encrypt() on this tree): recorded, and refused below
+        SED = 'pgpy.packet.packets.SKEData'
+        r.hook(SED, '__call__', lambda ex, st, cls, a: [(st, E.VObj(SED, 'unprotected-container'))])
+
+        def sedenc(ex, st, o, a):
+            st.ghost['unprotected_container_args'] = a
+            return [(st, E.VNone())]
+        r.hook(SED, 'encrypt', scn.method_hook(sedenc))
+
         def m_or(ex, st, o, a):
             st.ghost['added'] = st.ghost.get('added', ()) + (a[0],)
             return [(st, o)]
@@ -552,7 +564,8 @@ def key_encrypt(supplied):
                 continue
             draws = s.ghost.get('rand', ())
             ea, sa = s.ghost.get('encrypt_sk_args'), s.ghost.get('seipd_args')
-            r.oblige(s, 'one-session-key-packet-and-one-container/p%d' % pi, z3.BoolVal(ea is not None and sa is not None))
+            r.oblige(s, 'one-session-key-packet-and-one-integrity-protected-container(tag-18,with-MDC)/p%d' % pi,
+                     z3.BoolVal(ea is not None and sa is not None and s.ghost.get('unprotected_container_args') is None))
             if ea is None or sa is None:
                 continue
             if supplied:
@@ -584,7 +597,7 @@ def key_encrypt(supplied):
                     r.oblige(s2, 'second-encryption-of-the-same-message:its-session-key-is-a-second-fresh-draw/p%d.%d' % (pi, qi),
                              z3.And(z3.BoolVal(okk), z3.And(d2[1][0] == 32, ex.seq(e2[2], s2) == d2[1][1], ex.seq(a2[0], s2) == d2[1][1]) if okk else z3.BoolVal(False)))
         return r.result()
-    return Scenario(label, KEY + '.encrypt', gen, props=('C03', 'C13', 'C16', 'C18'))
+    return Scenario(label, KEY + '.encrypt', gen, props=('C03', 'C13', 'C16', 'C18', 'C04'))
 
 
 def key_decrypt():
@@ -1053,7 +1066,7 @@ def message_encrypt(supplied, already):
                     r.oblige(s2, 'second-encryption-of-the-same-message:its-session-key-is-a-second-fresh-draw/p%d.%d' % (pi, qi),
                              z3.And(z3.BoolVal(okk), z3.And(d2[1][0] == 32, ex.seq(e2[1], s2) == d2[1][1], ex.seq(a2[0], s2) == d2[1][1]) if okk else z3.BoolVal(False)))
         return r.result()
-    return Scenario(label, MSG + '.encrypt', gen, props=('C03', 'C13'))
+    return Scenario(label, MSG + '.encrypt', gen, props=('C03', 'C13', 'C04'))
 
 
 _base_scn5 = scenarios
